@@ -35,6 +35,8 @@ pub enum Op {
     /// `let x = y;` at the top level — an alias is a declaration of x whose right-hand side is
     /// a use that precedes the binding of x
     Alias(u8, u8),
+    /// `x[y] = 1;` — two uses: the base and the identifier inside its index
+    AssignIndexed(u8, u8),
     Use(u8),
     Assign(u8),
     CallGate(u8),
@@ -58,7 +60,7 @@ pub enum Op {
     Close,
 }
 
-pub const OPS: [Op; 37] = [
+pub const OPS: [Op; 40] = [
     Op::DeclInt(0),
     Op::DeclInt(1),
     Op::DeclConst(0),
@@ -78,6 +80,7 @@ pub const OPS: [Op; 37] = [
     Op::Def(1),
     Op::Close,
     Op::Alias(0, 1),
+    Op::AssignIndexed(0, 1),
     Op::DeclInit(0, 0),
     Op::DeclInit(0, 1),
     Op::DeclInit(1, 0),
@@ -96,9 +99,11 @@ pub const OPS: [Op; 37] = [
     Op::BodyDecl(3, 1),
     Op::Alias(1, 0),
     Op::Alias(0, 0),
+    Op::AssignIndexed(1, 0),
+    Op::AssignIndexed(0, 0),
 ];
-/// the first 27 operations are the quick alphabet; the thorough tier uses all 37
-pub const N_QUICK_OPS: usize = 27;
+/// the first 28 operations are the quick alphabet; the thorough tier uses all 40
+pub const N_QUICK_OPS: usize = 28;
 
 fn op_name(op: Op, names: &[&str; 2]) -> String {
     match op {
@@ -107,6 +112,7 @@ fn op_name(op: Op, names: &[&str; 2]) -> String {
         Op::DeclQubit(n) => format!("qubit:{}", names[n as usize]),
         Op::DeclInit(n, m) => format!("int:{}={}", names[n as usize], names[m as usize]),
         Op::Alias(n, m) => format!("let:{}={}", names[n as usize], names[m as usize]),
+        Op::AssignIndexed(n, m) => format!("assign:{}[{}]", names[n as usize], names[m as usize]),
         Op::Use(n) => format!("use:{}", names[n as usize]),
         Op::Assign(n) => format!("assign:{}", names[n as usize]),
         Op::CallGate(n) => format!("call:{}", names[n as usize]),
@@ -276,7 +282,7 @@ pub fn render(hist: &[Op], family: usize) -> Option<Rendered> {
                 // ... and only while the file has held declarations and compound statements so
                 // far (once an expression-like statement has been met, `let` is that other
                 // statement too: the recorded finding)
-                if hist[..pos].iter().any(|o| matches!(o, Op::Use(_) | Op::Assign(_) | Op::CallGate(_))) {
+                if hist[..pos].iter().any(|o| matches!(o, Op::Use(_) | Op::Assign(_) | Op::CallGate(_) | Op::AssignIndexed(..))) {
                     return None;
                 }
                 let rhs = names[m as usize];
@@ -290,6 +296,19 @@ pub fn render(hist: &[Op], family: usize) -> Option<Rendered> {
                     nontrivial = true;
                 }
                 events.push(Expect { name: rhs.to_string(), range: (start, end), is_decl: false, target, gate_use: false, typed: false, deep: dist >= 1 });
+            }
+            Op::AssignIndexed(n, m) => {
+                for (k, name) in [names[n as usize], names[m as usize]].into_iter().enumerate() {
+                    let start = text.len();
+                    text.push_str(name);
+                    let end = text.len();
+                    text.push_str(if k == 0 { "[" } else { "] = 1;\n" });
+                    let (target, dist) = lookup(&scopes, name);
+                    if target.is_none() && k == 0 {
+                        nontrivial = true;
+                    }
+                    events.push(Expect { name: name.to_string(), range: (start, end), is_decl: false, target, gate_use: false, typed: false, deep: dist >= 1 });
+                }
             }
             Op::Use(n) | Op::Assign(n) | Op::CallGate(n) => {
                 let name = names[n as usize];
@@ -521,8 +540,20 @@ fn walk_stmt(s: &asg::Stmt, out: &mut Vec<Found>) {
             }
         }
         asg::Stmt::Assignment(a) => {
-            if let asg::LValue::Identifier(r) = a.lvalue() {
-                out.push(Found { res: r.clone(), ty: None });
+            match a.lvalue() {
+                asg::LValue::Identifier(r) => out.push(Found { res: r.clone(), ty: None }),
+                asg::LValue::IndexedIdentifier(ii) => {
+                    out.push(Found { res: ii.identifier().clone(), ty: None });
+                    for ix in ii.indexes() {
+                        if let asg::IndexOperator::ExpressionList(l) = ix {
+                            for e in &l.expressions {
+                                if let asg::Expr::Identifier(r) = e.expression() {
+                                    out.push(Found { res: r.clone(), ty: None });
+                                }
+                            }
+                        }
+                    }
+                }
             }
         }
         asg::Stmt::GateCall(g) => out.push(Found { res: g.name().clone(), ty: None }),
